@@ -174,7 +174,7 @@ def part_a(chk, thorough):
             chk.count(("a", d, case["id"], json.dumps(case["templates"], sort_keys=True)), nontriv,
                       kind="a:%s:%s" % (case["kind"], "dotall" if d else "nodotall"),
                       sample={"part": "a", "multiline_tags": d, "main": case["main"], "templates": case["templates"],
-                              "patched_nodebug_render": op["patched-nodebug"].get("render1")} if nontriv and case["id"] % 97 == 5 else None)
+                              "patched_nodebug_render": op["patched-nodebug"].get("render1")} if nontriv and case["id"] % 97 == 5 and len(chk.samples) < 2 else None)
             replay = {"part": "a", "multiline_tags": d, "case": {k: case[k] for k in ("templates", "main", "ctx")}}
             # tokens
             for name, src in case["templates"].items():
@@ -268,7 +268,7 @@ def part_b1(chk, thorough):
         nontriv = bool(fam["chain"]) and "{{ block.super }}" in "".join(case["templates"].values()) and nblocks >= 3
         chk.count(("b1", json.dumps(fam)), nontriv, kind="b1:%s:levels=%d" % ("exhaustive" if 0 < case["id"] - len(G1_CORPUS) + 1 <= len(exh) else "random", 1 + len(fam["chain"])),
                   sample={"part": "b1", "templates": case["templates"], "family_output": fam_out, "flattened_output": flat_out}
-                  if nontriv and case["id"] % 150 == 7 else None)
+                  if nontriv and case["id"] % 150 == 7 and len(chk.samples) < 4 else None)
         replay = {"part": "b1", "family": fam, "templates": case["templates"], "family_output": fam_out, "flattened_output": flat_out}
         if not isinstance(fam_out, str) or not isinstance(flat_out, str):
             chk.disagree("abstract family did not render", replay)
